@@ -63,7 +63,7 @@ def run(ctx):
         for b in bodies:
             for blk, t in ctx.find_calls(b, "^" + re.escape(callee) + "$"):
                 n += 1
-                ctx.requires("C06.who.fieldsgen", b, blk, "call " + callee.rsplit("::", 1)[1], [r"is_struct\(self\.0\.data\)=True"])
+                ctx.requires("C06.who.fieldsgen", b, blk, "call " + callee.rsplit("::", 1)[1], [r"^discr\(self\.0\.data\.style\)=Struct$"])
         ctx.floor("C06.who.fieldsgen", "callers of " + callee.rsplit("::", 1)[1], n, 1)
     # DefaultExpression::Inherit is constructed only by InputField::with_inherited
     makers = set()
